@@ -1,35 +1,35 @@
 package main
 
 import (
-	"golang.org/x/tools/go/ssa"
 	"fmt"
-	"math/big"
-	"sort"
 	"go/constant"
 	"go/token"
 	"go/types"
+	"golang.org/x/tools/go/ssa"
+	"math/big"
+	"sort"
 	"strconv"
 	"strings"
 )
 
 // evaluator turns contract expressions into SMT terms in a given state.
 type evaluator struct {
-	x     *executor
-	st    *state
-	old   *state
-	vars  map[string]Val
-	frame *frame
-	pos   token.Pos
-	pkg   *types.Package
-	depth int
-	where string // clause location for error messages
-	implFor types.Type // when verifying an implementation of an interface contract
-	preloop *state // state just before the enclosing loop's havoc (preloop(e))
-	currentParams bool // parameter names denote the current value of the parameter variable (body clauses)
-	before  *state // state before a `havoc ... at` clause of the current statement (before(e))
-	loopMark *T
-	localsSt *state // state in which local variables are read (old()/preloop() only switch the heap)
-	inLoop bool
+	x             *executor
+	st            *state
+	old           *state
+	vars          map[string]Val
+	frame         *frame
+	pos           token.Pos
+	pkg           *types.Package
+	depth         int
+	where         string     // clause location for error messages
+	implFor       types.Type // when verifying an implementation of an interface contract
+	preloop       *state     // state just before the enclosing loop's havoc (preloop(e))
+	currentParams bool       // parameter names denote the current value of the parameter variable (body clauses)
+	before        *state     // state before a `havoc ... at` clause of the current statement (before(e))
+	loopMark      *T
+	localsSt      *state // state in which local variables are read (old()/preloop() only switch the heap)
+	inLoop        bool
 }
 
 type evalErr struct{ msg string }
